@@ -333,7 +333,7 @@ Proof.
     { intros [a1 b1 d1] [a2 b2 d2]; simpl; intros; subst; reflexivity. }
     apply Ext.
     + exact J3.
-    + etransitivity; [exact J2|]. rewrite L2. reflexivity.
+    + etransitivity; [exact J2|]. rewrite L2. cbn [c_list]. rewrite N2Nat.inj_sub, Nat2N.id. reflexivity.
     + exact J4.
 Qed.
 
